@@ -18,10 +18,12 @@ base=$(git rev-parse --short HEAD)
 applies=no; builds=no; suite=no; demo_with=unknown; demo_without=unknown
 if git apply --check "$d/patch.diff" 2>/dev/null; then applies=yes; git apply "$d/patch.diff"; else res "$d" "$base" applies=no; cd /; git -C /repo worktree remove --force "$w"; exit 1; fi
 demo=$(ls $d/*_test.go | head -1); pkgdir=vgirpc
-grep -q "^package s3" "$demo" && pkgdir=vgirpc/s3; grep -q "^package gcs" "$demo" && pkgdir=vgirpc/gcs; grep -q "^package otel" "$demo" && pkgdir=vgirpc/otel
+grep -qE "^package (s3|vgis3)" "$demo" && pkgdir=vgirpc/s3; grep -qE "^package (gcs|vgigcs)" "$demo" && pkgdir=vgirpc/gcs; grep -qE "^package (otel|vgiotel)" "$demo" && pkgdir=vgirpc/otel
 tags=""; head -5 "$demo" | grep -q "go:build leakcheck" && tags="-tags leakcheck"
 (go build ./... && go vet ./vgirpc/) >/tmp/confirm_$name.log 2>&1 && builds=yes
 (cd $w && go test -count=1 ./vgirpc/... >>/tmp/confirm_$name.log 2>&1) && suite=yes
+# sub-packages with their own go.mod are not covered by the root module's ./...: build, vet and test them too
+if [ "$pkgdir" != vgirpc ]; then (cd $w/$pkgdir && go build ./... && go vet . && go test -count=1 ./... >>/tmp/confirm_$name.log 2>&1) || { builds=no; suite=no; }; fi
 cp "$demo" "$w/$pkgdir/zz_seed_demo_test.go"
 runre=$(grep -oE "^func (Test[A-Za-z0-9_]+)" "$demo" | awk '{print $2}' | paste -sd'|')
 (cd $w/$pkgdir && go test $tags -count=1 -run "^($runre)\$" . >>/tmp/confirm_$name.log 2>&1) && demo_with=pass || demo_with=fail
